@@ -13,13 +13,21 @@ import vlib
 from vlib import ToolError, log
 
 EXT = {"ts": ".ts", "dts": ".d.ts", "tsx": ".tsx"}
+# nested directories, the same base name everywhere (generated identifiers are built from the paths)
+FPATH = {"entry": "entry", "m1": "a/b/t", "m2": "a/c/t", "m3": "c/t", "hop": "hop"}
+
+
+def spec_from(frm, to):
+    import posixpath
+    rel = posixpath.relpath(FPATH[to], posixpath.dirname(FPATH[frm]) or ".")
+    return '"' + (rel if rel.startswith(".") else "./" + rel) + '"'
 
 
 def render(L):
     place, exp, kind = L["place"], L["exp"], L["kind"]
     imp = {(s["u"], s["d"]): s["st"] for s in L["imp"]}
     broken = (L["broken"]["u"], L["broken"]["d"])
-    files = {"entry": [], "m1": [], "m2": []}
+    files = {"entry": [], "m1": [], "m2": [], "m3": []}
     bound = {f: {} for f in files}         # file -> local name -> True
     hop = []
 
@@ -36,9 +44,11 @@ def render(L):
         if fu == fd:
             return d
         st = imp[(u, d)]
-        is_default = exp[d] == "default" and fd != "entry"
+        is_default = exp[d] in ("default", "defaultExpr") and fd != "entry"
         en = ename(d) + ("Missing" if broken == (u, d) else "")
-        spec = f'"./{fd}"'
+        spec = spec_from(fu, fd)
+        hspec = spec_from("hop", fd)
+        fromhop = spec_from(fu, "hop")
 
         def bind(local, line):
             if local not in bound[fu]:
@@ -75,23 +85,23 @@ def render(L):
         if st == "importtype":
             return f"import({spec}).{en}"
         if st == "hopnamed":
-            line = f'export {{ {ename(d)} }} from {spec};'
+            line = f'export {{ {ename(d)} }} from {hspec};'
             if line not in hop:
                 hop.append(line)
-            bind(d, (f'import {{ {en} as {d} }} from "./hop";' if en != d else f'import {{ {d} }} from "./hop";'))
+            bind(d, (f'import {{ {en} as {d} }} from {fromhop};' if en != d else f'import {{ {d} }} from {fromhop};'))
             return d
         if st == "hopstar":
-            line = f'export * from {spec};'
+            line = f'export * from {hspec};'
             if line not in hop:
                 hop.append(line)
-            bind(d, (f'import {{ {en} as {d} }} from "./hop";' if en != d else f'import {{ {d} }} from "./hop";'))
+            bind(d, (f'import {{ {en} as {d} }} from {fromhop};' if en != d else f'import {{ {d} }} from {fromhop};'))
             return d
         if st == "hopns":
             ns = f"ns{fd}"
-            line = f'export * as {ns} from {spec};'
+            line = f'export * as {ns} from {hspec};'
             if line not in hop:
                 hop.append(line)
-            bind(ns, f'import {{ {ns} }} from "./hop";')
+            bind(ns, f'import {{ {ns} }} from {fromhop};')
             return f"{ns}.{en}"
         raise ToolError(f"unknown import style {st}")
 
@@ -103,8 +113,8 @@ def render(L):
             body, head = f'{{ a: string; b?: {ref("A", "B")}; self?: A }}', "type A"
         elif d == "G":
             body, head = "{ x: X }", "type G<X>"
-        elif d in ("E", "E2"):
-            members = '{ P = "p", Q = "q" }' if d == "E" else '{ P = "fp", R = "r" }'
+        elif d in ("E", "E2", "E3"):
+            members = {"E": '{ P = "p", Q = "q" }', "E2": '{ P = "fp", R = "r" }', "E3": '{ P = "gp", S = "s" }'}[d]
             st = exp[d] if f != "entry" else "inline"
             n = dname[d]
             if st == "inline":
@@ -122,18 +132,23 @@ def render(L):
                 core = "const k = { v: 1 } as const;"
             if st == "inline":
                 return "export " + core
-            tail = {"list": "export { k };", "renamed": "export { k as kX };", "default": "export default k;"}[st]
+            if st == "defaultExpr" and kind[f] != "dts":
+                # an expression that mentions another declaration of its own module; the importing file has a decoy of that name
+                return "const kin = 1 as const;\nexport default { v: kin } as const;"
+            tail = {"list": "export { k };", "renamed": "export { k as kX };", "default": "export default k;", "defaultExpr": "export default k;"}[st]
             return core + "\n" + tail
         if st == "inline":
             return f"export {head} = {body};"
         tail = {"list": f"export {{ {d} }};", "renamed": f"export {{ {d} as {d}X }};", "default": f"export default {d};"}[st]
         return f"{head} = {body};\n{tail}"
 
-    for d in ["B", "A", "G", "k", "E", "E2"]:
+    for d in ["B", "A", "G", "k", "E", "E2", "E3"]:
         files[place[d]].append(decl(d))
-    root = f'type T = {{ a: {ref("T", "A")}; b: {ref("T", "B")}; k: typeof {ref("T", "k")}; g: {ref("T", "G")}<{ref("T", "B")}>; e: {ref("T", "E")}.P; f: {ref("T", "E2")}.P }};'
+    root = f'type T = {{ a: {ref("T", "A")}; b: {ref("T", "B")}; k: typeof {ref("T", "k")}; g: {ref("T", "G")}<{ref("T", "B")}>; e: {ref("T", "E")}.P; f: {ref("T", "E2")}.P; g3: {ref("T", "E3")}.P }};'
     files["entry"].append(root)
     files["entry"].append("parse.buildParsers<{ T: T }>();")
+    if exp["k"] == "defaultExpr" and place["k"] != "entry":
+        files["entry"].insert(0, 'const kin = "decoy";')
     if L["decoy"] != "none":
         files[L["decoy"]].append("type B = number;\nexport type UsesDecoyB = B[];")
     out = []
@@ -141,7 +156,7 @@ def render(L):
         if f == "entry":
             out.append(("entry.ts", "\n".join(lines) + "\n"))
         elif lines:
-            out.append((f + EXT[kind[f]], "\n".join(lines) + "\n"))
+            out.append((FPATH[f] + EXT[kind[f]], "\n".join(lines) + "\n"))
     if hop:
         out.append(("hop.ts", "\n".join(hop) + "\n"))
     return out
@@ -203,14 +218,16 @@ def run(prop, tier):
     ]
     S = lambda x: {"k": "str", "s": x}
     for q in probes[len(common):]:
-        q["ps"] += [{"key": "e", "v": S("p")}, {"key": "f", "v": S("fp")}]
+        q["ps"] += [{"key": "e", "v": S("p")}, {"key": "f", "v": S("fp")}, {"key": "g3", "v": S("gp")}]
     swapped = copy.deepcopy(probes[len(common)])
-    swapped["ps"][-2:] = [{"key": "e", "v": S("fp")}, {"key": "f", "v": S("p")}]
+    swapped["ps"][-3:] = [{"key": "e", "v": S("fp")}, {"key": "f", "v": S("p")}, {"key": "g3", "v": S("gp")}]
     same = copy.deepcopy(probes[len(common)])
-    same["ps"][-2:] = [{"key": "e", "v": S("p")}, {"key": "f", "v": S("p")}]
+    same["ps"][-3:] = [{"key": "e", "v": S("p")}, {"key": "f", "v": S("p")}, {"key": "g3", "v": S("p")}]
     other = copy.deepcopy(probes[len(common)])
-    other["ps"][-2:] = [{"key": "e", "v": S("q")}, {"key": "f", "v": S("r")}]
-    probes += [swapped, same, other]
+    other["ps"][-3:] = [{"key": "e", "v": S("q")}, {"key": "f", "v": S("r")}, {"key": "g3", "v": S("s")}]
+    third = copy.deepcopy(probes[len(common)])
+    third["ps"][-3:] = [{"key": "e", "v": S("p")}, {"key": "f", "v": S("gp")}, {"key": "g3", "v": S("fp")}]
+    probes += [swapped, same, other, third]
     reqs = [vlib.compile_req(i, p["files"]) for i, p in enumerate(projects)]
     comp = vlib.compile_all(reqs)
     jobs = [{"id": i, "code": r["code"], "root": "T", "probes": probes, "ops": ["validate", "hash"]} for i, r in enumerate(comp) if r["outcome"] == "code"]
